@@ -9,3 +9,4 @@ CONSTANTS
   MaxSaves = 4
   MaxEvents = 8
   Dev <- Known
+  Pairs2 = TRUE
